@@ -39,7 +39,12 @@ open Glom Glom.C02
     a TType overload has a branch in `_t_eval`; that branch performs the
     operation the overload's dunder denotes (`__floordiv__` ↦ `//`, `__pow__` ↦
     `**`, …); the attribute / item / arithmetic branches turn the documented
-    exception classes into PathAccessErrors and the call branch catches nothing;
+    exception classes into PathAccessErrors — the `except` clause of the arithmetic
+    branch covers TypeError, ZeroDivisionError, OverflowError and ValueError (the class
+    or a base class of it, on the exception table extracted from Python), and a class is
+    listed only for a handler that converts UNCONDITIONALLY (whole body
+    `pae = PathAccessError(e, Path(_t), i // 2)`; see
+    `c02_conditional_handler_counterexample`) — and the call branch catches nothing;
     all fifteen operations of the property are overloaded; every
     PathAccessError is built with `i // 2`; PathAccessError is a GlomError. -/
 theorem c02_facts_wf : WF genFacts = true := by decide
